@@ -252,3 +252,30 @@ func VerifHarness_C08_ErrorLabelsInStreams() {
 	vsymAssert(total == n, "every record is returned")
 	vsymReach("C08_error_labels")
 }
+
+// C07-O5: decolorize removes ANSI colour sequences and nothing else.  Lines
+// are assembled from a pool of plain texts (some looking like the inside of a
+// sequence) and a pool of colour sequences introduced by ESC or by the 8-bit
+// CSI (U+009B); the stage must return the texts alone, and keep the labels.
+func VerifHarness_C07_Decolorize() {
+	texts := []string{"", "a", "[0m", "m1;31", "plain text;", "\t\n", "é[", "0;x"}
+	seqs := []string{"", "\x1b[31m", "\x1b[0m", "\u009b1;31m", "\u009b[32m", "\x1b[1;31;40m", "\x1b[2K", "\x1b]0;title\x07"}
+	t0 := texts[vsymChoice("text", len(texts))]
+	s1 := seqs[vsymChoice("seq", len(seqs))]
+	t1 := texts[vsymChoice("text", len(texts))]
+	s2 := seqs[vsymChoice("seq", len(seqs))]
+	t2 := texts[vsymChoice("text", len(texts))]
+	// (no text contains BEL: after an ESC/CSI introducer it would be read as
+	// the end of an operating-system command, which is not judged here)
+	line := t0 + s1 + t1 + s2 + t2
+	stages, err := BuildPipeline(&logql.DecolorizeExpr{})
+	vsymAssert(err == nil, "decolorize builds")
+	set := newLabelSet()
+	set.Set("foo", pcommon.NewValueStr("\x1b[31mred"))
+	out, keep := stages.Process(1, line, set)
+	vsymAssert(keep, "decolorize never drops a line")
+	vsymAssert(out == t0+t1+t2, "decolorize removes the colour sequences and nothing else")
+	v, ok := verifGet(set, "foo")
+	vsymAssert(ok && v == "\x1b[31mred" && verifNoErr(set), "decolorize does not touch labels")
+	vsymReach("C07_decolorize")
+}
